@@ -17,7 +17,10 @@ type cstep struct {
 	present string
 	cookie  string
 	ops     []op
-	conn    int    // 1, 2: serve on that reused RequestCtx ("connection"); 0: a fresh one
+	conn    int  // 1, 2: serve on that reused RequestCtx ("connection"); 0: a fresh one
+	outer   bool // store API in a handler in front of the middleware: pre, (ops inside), post
+	pre     []op
+	post    []op
 	fault   string // "get-first" / "get-outage": Storage.Get fails during this request (vstore only)
 }
 
@@ -71,7 +74,11 @@ func runFixed(e *ev.Env, c *ev.Case, cfg cfgT, nclients int, steps []cstep) *his
 			}
 		}
 		h.nextConn = s.conn
-		rq := &request{Client: s.client, MW: s.mw, Presented: h.resolve(s.client, s.present), Class: "scripted", Cookie: h.resolve(s.client, s.cookie), Fault: s.fault}
+		rq := &request{Client: s.client, MW: s.mw, Presented: h.resolve(s.client, s.present), Class: "scripted", Cookie: h.resolve(s.client, s.cookie), Fault: s.fault,
+			Outer: s.outer, Pre: s.pre, Post: s.post}
+		if s.outer {
+			rq.MW = true
+		}
 		if s.present == "" {
 			rq.Class = "none"
 		}
@@ -290,6 +297,43 @@ func corpus(e *ev.Env) {
 				})
 			})
 		}
+	}
+	// KeyLookup names with upper-case letters: the id presented under the configured name is found
+	for _, nm := range [][2]string{{"cookie", "Session_ID"}, {"query", "SID"}, {"header", "X-SESSION-Id"}} {
+		nm := nm
+		e.Corpus("name-case-"+nm[0], func(c *ev.Case) {
+			for _, vst := range []bool{true, false} {
+				cfg := cfgT{Source: nm[0], Name: nm[1], VStore: vst, Idle: 5 * sec}
+				runFixed(e, c, cfg, 1, []cstep{
+					{mw: true, ops: []op{set("k0", "v0.1")}},
+					{mw: true, present: "@jar", ops: []op{get("k0"), set("k1", "v0.2")}},
+					{present: "@jar", ops: []op{get("k0"), get("k1"), set("k2", "v0.3"), k("save")}},
+					{mw: true, present: "@jar", ops: []op{get("k2")}},
+				})
+			}
+		})
+	}
+	// both APIs in one request: the store API in a handler in front of the middleware, same store;
+	// what was saved last under the id is what the next request sees
+	for _, src := range [][2]string{{"cookie", "sid"}, {"header", "X-Session-Id"}, {"query", "sid"}} {
+		src := src
+		e.Corpus("store-api-around-middleware-"+src[0], func(c *ev.Case) {
+			for _, vst := range []bool{true, false} {
+				cfg := cfgT{Source: src[0], Name: src[1], VStore: vst, Idle: 5 * sec, Abs: 9 * sec}
+				runFixed(e, c, cfg, 1, []cstep{
+					{mw: true, ops: []op{set("k0", "v0.1")}},
+					// saved after the middleware returned: the outer copy wins
+					{outer: true, present: "@jar", pre: []op{get("k0"), set("k1", "v0.2")}, ops: []op{get("k0"), set("k2", "v0.3")}, post: []op{set("k3", "v0.4"), k("save")}},
+					{mw: true, present: "@jar", ops: []op{get("k1"), get("k2"), get("k3")}},
+					// saved before the middleware ran: the middleware loads it and saves last
+					{outer: true, present: "@jar", pre: []op{set("k0", "v0.5"), k("save")}, ops: []op{get("k0"), set("k2", "v0.6"), k("sget")}, post: []op{get("k0")}},
+					{present: "@jar", ops: []op{get("k0"), get("k2"), k("save")}},
+					// a new client: both mechanisms create a session
+					{outer: true, pre: []op{set("k0", "v0.7")}, ops: []op{set("k1", "v0.8")}, post: []op{set("k2", "v0.9"), k("save")}},
+					{mw: true, present: "@jar", ops: []op{get("k0"), get("k1"), get("k2")}},
+				})
+			}
+		})
 	}
 	// storage read errors: no adoption of a presented id, no loss of saved data
 	for _, src := range [][2]string{{"cookie", "sid"}, {"header", "X-Session-Id"}, {"query", "sid"}} {
